@@ -664,6 +664,54 @@ theorem expected_empty_iff (r : Routes) (held : Roa → Bool) (u : RoaUpdates) :
       exact hno (Or.inr ⟨pre, c, post, hs, (badAddition_isSome _ held pre c).mp ⟨_, by simpa using hk⟩⟩)
 
 
+/-! ## One request in a history -/
+
+theorem baseline_get? (r : Routes) (removed : List Roa) (p : Roa) :
+    (Spec.baseline r removed).get? p = if removed.contains p then none else r.get? p := by
+  unfold Spec.baseline Routes.get?
+  induction r with
+  | nil => simp
+  | cons e rest ih =>
+    simp only [List.filter_cons]
+    by_cases he : (e.1 == p) = true
+    · have hep : e.1 = p := by simpa using he
+      by_cases hr : removed.contains e.1 = true
+      · have hrp : removed.contains p = true := by rw [← hep]; exact hr
+        simp only [hr, Bool.not_true, Bool.false_eq_true, if_false]
+        rw [ih]; simp [hrp]
+      · have hr' : removed.contains e.1 = false := by simpa using hr
+        have hrp : removed.contains p = false := by rw [← hep]; exact hr'
+        simp [hr', List.find?_cons, he, hrp]
+    · have he' : (e.1 == p) = false := by simpa using he
+      by_cases hr : removed.contains e.1 = true
+      · simp only [hr, Bool.not_true, Bool.false_eq_true, if_false]
+        rw [ih]; simp [List.find?_cons, he']
+      · have hr' : removed.contains e.1 = false := by simpa using hr
+        simp only [hr', Bool.not_false, if_true, List.find?_cons, he']
+        exact ih
+
+/-- A request in configuration `r`: accepted – the new view is `viewStep` of the old one;
+refused – nothing changes. -/
+theorem routeCommand_view (r : Routes) (q : RouteReq) :
+    (Spec.accepted r q = true →
+      ∀ p, (routeCommand r q.held q.upd).get? p =
+        Spec.viewStep q.upd.setExplicitMaxLength r.get? p) ∧
+    (Spec.accepted r q = false → routeCommand r q.held q.upd = r) := by
+  have hc := (processUpdates_closed r q.held q.upd.setExplicitMaxLength)
+  obtain ⟨hE, _, hJ, hK⟩ := hc
+  unfold routeCommand processRouteUpdate Spec.accepted
+  rw [processUpdates_def, hE]
+  constructor
+  · intro ha p
+    simp only [ha, if_true]
+    rw [hK (by rw [hE]; exact ha) p]
+    unfold Spec.viewStep
+    cases Spec.lastComment q.upd.setExplicitMaxLength.added p with
+    | some c => rfl
+    | none => simp only; rw [baseline_get?]
+  · intro ha
+    simp [ha]
+
 /-! ## ASPA -/
 
 namespace AspaDefs
